@@ -57,8 +57,11 @@ type Case struct {
 	// from 0 rps (its first level lasts DurMs and is empty), "pause": a 0-rps part of LeadMs before
 	// a const part. Whatever the schedule hands out, no request may be fired before the run's
 	// start plus that stretch: the scheduled time of a request is what the profile says.
-	Lead   string `json:"leading_empty_stretch,omitempty"`
-	LeadMs int    `json:"lead_ms,omitempty"`
+	// UnlimOnly: the whole profile is `unlimited` for DurMs: every request is scheduled for the moment
+	// it is drawn, so none can be late — however slow the target, nothing may be discarded
+	UnlimOnly bool   `json:"unlimited_only,omitempty"`
+	Lead      string `json:"leading_empty_stretch,omitempty"`
+	LeadMs    int    `json:"lead_ms,omitempty"`
 }
 
 const window = 2 * time.Second
@@ -67,7 +70,9 @@ func runCase(res *vkit.Result, c Case) {
 	d := time.Duration(c.DurMs) * time.Millisecond
 	var inner core.Schedule
 	var lead time.Duration
-	if c.Lead == "step0" {
+	if c.UnlimOnly {
+		inner = schedule.NewUnlimited(d)
+	} else if c.Lead == "step0" {
 		inner = schedule.NewStep(0, 2*c.From, int64(c.From), d)
 		lead = d
 	} else if c.Lead == "pause" {
@@ -222,6 +227,9 @@ func runCase(res *vkit.Result, c Case) {
 	if !c.Discard && fired != tokens {
 		fail("not-fired", "discard off: %d tokens, %d fired", tokens, fired)
 	}
+	if c.UnlimOnly && discarded > 0 {
+		fail("unlimited-discarded", "the profile is `unlimited` (every request is due when it is drawn, none can be 2 s late), yet %d of %d requests were discarded", discarded, tokens)
+	}
 	res.Count("tokens_judged", int64(tokens))
 	res.Count("fired_on_time", int64(firedOnTime))
 	res.Count("fired_late_lt_2s", int64(firedLate))
@@ -265,6 +273,9 @@ func base() []Case {
 		// tokens are bound to the 2 s window all the same
 		{Name: "stall-in-paced-plus-unlimited", Instances: 1, From: 20, DurMs: 3500, Discard: true, ShotMs: 1, StallAt: 3, StallMs: 2600, UnlimMs: 60},
 		{Name: "stall-in-paced-plus-unlimited", Instances: 2, From: 30, DurMs: 3500, Discard: true, ShotMs: 1, StallAt: 5, StallMs: 2700, UnlimMs: 40, UnlimFirst: true},
+		// an unlimited profile against a slow target (few draws per second)
+		{Name: "unlimited-slow-target", Instances: 1, DurMs: 4000, Discard: true, ShotMs: 250, StallAt: -1, UnlimOnly: true},
+		{Name: "unlimited-slow-target", Instances: 3, DurMs: 4500, Discard: true, ShotMs: 700, StallAt: -1, UnlimOnly: true},
 		// profiles that begin with an empty stretch
 		{Name: "leading-empty-stretch", Instances: 4, From: 10, DurMs: 500, Discard: true, ShotMs: 1, StallAt: -1, Lead: "step0"},
 		{Name: "leading-empty-stretch", Instances: 2, From: 20, DurMs: 400, Discard: false, ShotMs: 0, StallAt: -1, Lead: "step0"},
